@@ -4,6 +4,9 @@ C16 — executable model of boltons/tbutils.py:
   * ParsedException.from_string / to_string (text is `List Char`; lines are `List Char`)
   * Callpoint.tb_frame_str, TracebackInfo.from_traceback(limit) / get_formatted,
     ExceptionInfo.get_formatted, and the `traceback` module's layout (`stdFormat`, spec side)
+  * the frame walk: Callpoint.from_tb over traceback entries (`TbEntry`), `_DeferredLine.__str__`
+    (linecache.checkcache + getline with the module's name and loader) and, spec side, the lookup of
+    the `traceback` module (lazycache, checkcache, getline) over an abstract linecache / file / loader state
 
 The model follows the code as it is on the c16-work branch (after the `fix:` commits):
   - the frame loop of from_string is guarded by `line_no < len(tb_lines)` (no IndexError),
@@ -437,5 +440,105 @@ def stdExtract (tb : List Callpoint) (limit : Option Nat) : List Callpoint :=
   match limit with
   | none => tb
   | some n => tb.take n
+
+/-! ## the frame walk: traceback entries, linecache and `_DeferredLine`
+
+What the interpreter hands over for one traceback entry is the frame (identity `fid`: the same frame
+object may occur in several entries, e.g. after `raise e` in an `except` block), its code's file and
+function name, the entry's line number, and - for the source text - the state of the three places
+the `linecache` module consults for that file (`Look`), each reduced to the line at this entry's
+line number ('' beyond the end):
+  * the cache entry: none / a lazy loader entry / a complete entry without mtime (registered from a
+    loader or by hand, never revalidated) / a complete entry with the (size, mtime) stamp it was read at,
+  * the file on disk now (os.stat succeeds): its (size, mtime) and the line,
+  * the module's `__loader__.get_source` (reachable through the frame's globals). -/
+
+inductive CacheSt where
+  | absent
+  | lazy (line : Str)
+  | pinned (line : Str)
+  | stamped (size mtime : Nat) (line : Str)
+deriving DecidableEq, Repr
+
+structure Look where
+  cache : CacheSt
+  disk : Option (Nat × Nat × Str)
+  loader : Option Str
+deriving DecidableEq, Repr
+
+structure TbEntry where
+  path : Str
+  lineno : Nat
+  func : Str
+  fid : Nat
+  look : Look
+deriving DecidableEq, Repr
+
+/-- `not filename or (filename.startswith('<') and filename.endswith('>'))` -/
+def isPseudo (p : Str) : Bool := p.isEmpty || (p.head? == some '<' && p.getLast? == some '>')
+
+/-- linecache.checkcache(filename): a complete entry with a stamp is dropped when the file is gone or
+    its size or mtime differ; lazy entries and entries without mtime are left alone -/
+def checkcache (c : CacheSt) (disk : Option (Nat × Nat × Str)) : CacheSt :=
+  match c, disk with
+  | .stamped _ _ _, none => .absent
+  | .stamped sz mt l, some (sz', mt', _) => if sz = sz' ∧ mt = mt' then .stamped sz mt l else .absent
+  | c, _ => c
+
+/-- linecache.lazycache(filename, module_globals): registers a lazy entry only when nothing is cached -/
+def lazycache (c : CacheSt) (path : Str) (loader : Option Str) : CacheSt :=
+  match c, loader with
+  | .absent, some l => if isPseudo path then .absent else .lazy l
+  | c, _ => c
+
+/-- linecache.updatecache(filename, module_globals), reached when no complete entry is cached: the
+    file on disk wins, else the (lazily registered) loader, else nothing -/
+def updatecache (c : CacheSt) (path : Str) (disk : Option (Nat × Nat × Str)) (gl : Option Str) : Str :=
+  if isPseudo path then [] else
+  match disk with
+  | some (_, _, l) => l
+  | none => match lazycache c path gl with
+    | .lazy l => l
+    | _ => []
+
+/-- linecache.getline(filename, lineno, module_globals) -/
+def getline (c : CacheSt) (path : Str) (disk : Option (Nat × Nat × Str)) (gl : Option Str) : Str :=
+  match c with
+  | .pinned l => l
+  | .stamped _ _ l => l
+  | c => updatecache c path disk gl
+
+/-- `_DeferredLine.__str__` before its rstrip: `linecache.checkcache(filename)`, then
+    `linecache.getline(filename, lineno, {'__name__': ..., '__loader__': ...})` -/
+def deferredRaw (path : Str) (k : Look) : Str := getline (checkcache k.cache k.disk) path k.disk k.loader
+
+/-- the traceback module (StackSummary._extract_from_extended_frame_gen + FrameSummary.line before its
+    strip): `lazycache(filename, f_globals)`, `checkcache(filename)`, `getline(filename, lineno)` -/
+def stdRaw (path : Str) (k : Look) : Str :=
+  getline (checkcache (lazycache k.cache path k.loader) k.disk) path k.disk none
+
+/-- Callpoint.from_tb: co_filename, tb_lineno, co_name, `_DeferredLine(...)`; the frame identity is not consulted -/
+def walkB (e : TbEntry) : Callpoint := ⟨e.path, e.lineno, e.func, deferredRaw e.path e.look⟩
+/-- FrameSummary of the traceback module for the same entry -/
+def walkS (e : TbEntry) : Callpoint := ⟨e.path, e.lineno, e.func, stdRaw e.path e.look⟩
+
+/-- the one region where the two lookups differ (known finding): a stamped entry is cached, the file is
+    gone and the module has a loader - boltons asks the loader, the traceback module (which called
+    lazycache while the stale entry was still there) shows nothing -/
+def LookOK (k : Look) : Bool :=
+  match k.cache, k.disk, k.loader with
+  | .stamped _ _ _, none, some _ => false
+  | _, _, _ => true
+
+/-- the limit in force: the explicit argument, else sys.tracebacklimit (negative = 0), else none
+    (boltons: 1000, assumed larger than the chain) -/
+def resolveLimit (explicit : Option Nat) (sys : Option Int) : Option Nat :=
+  match explicit with
+  | some n => some n
+  | none => sys.map Int.toNat
+
+/-- the frames of `ExceptionInfo.to_dict()`: file, line number, function, `str(_DeferredLine)` -/
+def dictFrames (frames : List Callpoint) : List (Str × Nat × Str × Str) :=
+  frames.map fun c => (c.path, c.lineno, c.func, rstrip c.line)
 
 end C16
